@@ -270,7 +270,7 @@ var battery = []sequence{
 }
 
 // quickBattery: indexes of the sequences the quick tier runs.
-var quickBattery = []int{0, 1, 4, 6, 7, 11, 12, 14}
+var quickBattery = []int{0, 1, 4, 6, 7, 9, 10, 11, 12, 14}
 
 // observe reads everything a connector reads from a finished transaction.
 func observe(tx types.Transaction) string {
